@@ -238,6 +238,11 @@ theorem journal_injective (C : Curve) (hC : C.YRecovery) (l l' : List Txo)
     (h : serializeSpendJournalEntry C l = serializeSpendJournalEntry C l') : l = l' :=
   Lemmas.journal_injective C hC l l' hw hw' hlen h
 
+/-- The journal decoder looks at the transaction shape only through the total number of inputs. -/
+theorem journal_shape_only_sum (C : Curve) (ser : List UInt8) (s1 s2 : List Nat) (h : s1.sum = s2.sum) :
+    deserializeSpendJournalEntry C ser s1 = deserializeSpendJournalEntry C ser s2 :=
+  Lemmas.journal_shape_only_sum C ser s1 s2 h
+
 example : (⟨5000000000, [0x51], 2147483647, true⟩ : Txo).WF := by unfold Txo.WF; decide
 example : (⟨546, [], -2147483648, false⟩ : Txo).WF := by unfold Txo.WF; decide
 
@@ -305,6 +310,22 @@ theorem outpointKey_format_roundtrip (hash : List UInt8) (idx : Nat) (h : hash.l
     rwa [List.append_nil] at this
   · rw [List.length_append, h, Lemmas.putVLQ_length]
 
+/-- Different outpoints never share a utxo-set key. -/
+theorem outpointKey_injective (h h' : List UInt8) (i i' : Nat) (hl : h.length = 32) (hl' : h'.length = 32)
+    (e : outpointKey h i = outpointKey h' i') : h = h' ∧ i = i' := Lemmas.outpointKey_injective h h' i i' hl hl' e
+
+-- legacy v0 utxo entries, examples 1-3 of the upgrade.go format comment
+example : deserializeUtxoEntryV0 C1 ([0x01, 0x01, 0x03, 0x32, 0x04] ++ keyX)
+    = .ok [(0, ⟨5000000000, [0x41, 0x04] ++ keyX ++ keyY ++ [0xac], 1, true⟩)] := by decide
+example : deserializeUtxoEntryV0 C0 [0x01, 0x85, 0xf9, 0x0b, 0x0a, 0x01, 0x12, 0x00, 0xe2, 0xcc, 0xd6, 0xec, 0x7c, 0x6e, 0x2e, 0x58, 0x13, 0x49, 0xc7, 0x7e, 0x06, 0x73, 0x85, 0xfa, 0x82, 0x36, 0xbf, 0x8a, 0x80, 0x09, 0x00, 0xb8, 0x02, 0x5b, 0xe1, 0xb3, 0xef, 0xc6, 0x3b, 0x0a, 0xd4, 0x8e, 0x7f, 0x9f, 0x10, 0xe8, 0x75, 0x44, 0x52, 0x8d, 0x58]
+    = .ok [(0, ⟨20000000, [0x76,0xa9,0x14,0xe2,0xcc,0xd6,0xec,0x7c,0x6e,0x2e,0x58,0x13,0x49,0xc7,0x7e,0x06,0x73,0x85,0xfa,
+             0x82,0x36,0xbf,0x8a,0x88,0xac], 113931, false⟩),
+           (2, ⟨15000000, [0x76,0xa9,0x14,0xb8,0x02,0x5b,0xe1,0xb3,0xef,0xc6,0x3b,0x0a,0xd4,0x8e,0x7f,0x9f,0x10,0xe8,0x75,
+             0x44,0x52,0x8d,0x58,0x88,0xac], 113931, false⟩)] := by decide
+example : deserializeUtxoEntryV0 C0 [0x01, 0x93, 0xd0, 0x6c, 0x10, 0x00, 0x00, 0x10, 0x8b, 0xa5, 0xb9, 0xe7, 0x63, 0x01, 0x1d, 0xd4, 0x6a, 0x00, 0x65, 0x72, 0xd8, 0x20, 0xe4, 0x48, 0xe1, 0x2d, 0x2b, 0xbb, 0x38, 0x64, 0x0b, 0xc7, 0x18, 0xe6]
+    = .ok [(22, ⟨366875659, [0xa9,0x14,0x1d,0xd4,0x6a,0x00,0x65,0x72,0xd8,0x20,0xe4,0x48,0xe1,0x2d,0x2b,0xbb,0x38,0x64,0x0b,
+             0xc7,0x18,0xe6,0x87], 338156, false⟩)] := by decide
+
 /-! ### best chain state and block index row -/
 
 /-- `<hash 32><height u32 LE><total txns u64 LE><work sum length u32 LE><work sum big-endian>` round-trips. -/
@@ -323,6 +344,13 @@ theorem blockRow_roundtrip (h : Header) (st : UInt8) (hw : h.WF) (tail : List UI
 
 theorem blockRow_size_eq_length (h : Header) (st : UInt8) (hw : h.WF) : (serializeBlockRow h st).length = 81 :=
   Lemmas.blockRow_size h st hw
+
+theorem bestState_injective (s s' : BestState) (hw : s.WF) (hw' : s'.WF)
+    (e : serializeBestChainState s = serializeBestChainState s') : s = s' := Lemmas.bestState_injective s s' hw hw' e
+
+theorem blockRow_injective (h h' : Header) (st st' : UInt8) (hw : h.WF) (hw' : h'.WF)
+    (e : serializeBlockRow h st = serializeBlockRow h' st') : h = h' ∧ st = st' :=
+  Lemmas.blockRow_injective h h' st st' hw hw' e
 
 example : (⟨List.replicate 32 7, 800000, 900000000, 2 ^ 95⟩ : BestState).WF := by
   unfold BestState.WF; decide
